@@ -122,7 +122,11 @@ class ComplexAngularCentralGaussian(_ProbabilisticModel):
         else:
             eigenvals = np.maximum(
                 eigenvals,
-                np.amax(eigenvals, axis=-1, keepdims=True) * eigenvalue_floor,
+                np.maximum(
+                    np.amax(eigenvals, axis=-1, keepdims=True)
+                    * eigenvalue_floor,
+                    np.finfo(eigenvals.dtype).tiny,
+                ),
             )
         assert np.isfinite(eigenvals).all(), eigenvals
 
